@@ -72,9 +72,14 @@ def run_history(item):
         nops = len(r["ops"])
         m_chk = rf.Model()
         expect_exc = set()
+        cur_chk = cfg
         for ci, op in enumerate(ops):
             if op[0] == "open":
-                m_chk.open_session(cfg)
+                over_ = dict(op[1]) if len(op) > 1 else {}
+                if "start_delta" in over_:
+                    over_["start"] = cur_chk["start"] + over_.pop("start_delta")
+                cur_chk = rf.Cfg(**{**cur_chk, **over_})
+                m_chk.open_session(cur_chk)
             elif op[0] in ("w", "wb"):
                 g_, b_, l_ = rf.op_blocks(op, m_chk.cursor)
                 if m_chk.check_blocks(g_, b_, l_) is None:
